@@ -13,9 +13,13 @@ needs are explicit hypotheses:
 
 and the `Int` instance at the end discharges all of them (non-vacuity).
 
-Finding F7 (confirmed on the real code): `Counter.reset()` and `Info.info()` on a labelled parent raise AttributeError,
-not ValueError.  `rejected_iff_partial` therefore excludes exactly that shape, and `f7_reset_on_labelled_parent` /
-`f7_info_on_labelled_parent` show the model raises AttributeError there.
+Finding F7 (repaired in /repo, commit b4fbf51): `Counter.reset()` and `Info.info()` on a labelled parent used to raise
+AttributeError because they did not start with `self._raise_if_not_observable()`.  T1 extracts whether they do
+(`counterResetChecksObservable`, `infoChecksObservable`); `rejected_iff` is the full statement and needs both to be true,
+so reverting the repair breaks it; `labelled_parent_update_rejected` and `Example.f7_regression` are the regressions.
+A second repair (commit 8998c4d): `Counter.reset()` stores the float `0.0` (`resetStoresFloat`), not the int `0` under
+which later int amounts were summed exactly instead of in floating point; `reset_keeps_float_sums` pins it and the
+counter part of `collect_refines_spec` rests on it.
 -/
 import PromVerif.Lemmas.MetricsCollect
 import PromVerif.Lemmas.MetricsFrame
@@ -32,6 +36,12 @@ variable {V : Type} [Val V]
 
 /-! ## 1. refinement -/
 
+/-- **`Counter.reset()` keeps the floating-point sum**: it stores the float zero (T1: `self._value.set(0.0)`).  With
+the int `0` the cell would be a Python int and later int amounts would be added exactly (`reset(); inc(2**53+1);
+inc(1)` collected 9007199254740994, not the left-to-right float sum 9007199254740992); the float-sum model
+cannot express that, so the counter part of `collect_refines_spec` rests on this theorem and stops checking without it. -/
+theorem reset_keeps_float_sums : resetStoresFloat = true := by decide
+
 /-- **Collected values equal the reference, for every history.**  After ANY list of calls on freshly constructed
 metrics, `collect` returns exactly what the reference reads off the history of accepted calls: counter and summary
 totals are left-to-right sums of the accepted amounts, bucket `le=b` is the number of observations `<= b`, `_count` is
@@ -43,7 +53,7 @@ theorem collect_refines_spec {B : Nat} (hx : CountExact V B) (htr : LeTrans V) (
     collect (run (Reg.fresh ds) ops).1 = Spec.Metrics.collect ds (accepted (Reg.fresh ds) ops) := by
   obtain ⟨heq, hok⟩ := run_fresh_abs ds ops
   rw [heq]
-  exact collect_eq hx htr ds _ hgood hok (fun h hm =>
+  exact collect_eq reset_keeps_float_sums hx htr ds _ hgood hok (fun h hm =>
     histLen_mono (Nat.le_trans (accepted_length ops _) hB) h (history_len ds _ h hm))
 
 /-- the invariant behind it: every metric object is the replay of the calls accepted since each child was created -/
@@ -123,15 +133,9 @@ def F7Shape (d : Decl V) : Addr → Action V → Prop
   | .none, act => d.labelnames ≠ [] ∧ skipsObservableCheck d.kind act = true
   | .labels _ _, _ => False
 
-/-
-FULL STATEMENT (does not hold of the code, finding F7):
-  theorem rejected_iff : (stepCall m addr act).2 = .raised .valueError ↔ RejectedCall m.decl addr act
-MISSING PART: the direction `RejectedCall → ValueError` for `F7Shape`: `Counter.reset()` and `Info.info()` called on a
-labelled parent raise AttributeError (they read `self._value` / `self._labelname_set` without calling
-`self._raise_if_not_observable()` first).  Everything else is proved:
--/
-/-- **Rejected calls raise ValueError, and only they do** — outside the shape of F7. -/
-theorem rejected_iff_partial (m : Metric V) (hwf : m.single.isSome = m.decl.labelnames.isEmpty) (addr : Addr)
+/-- the generic form, for either state of the source: rejected calls raise ValueError, and only they do, outside the
+shape `F7Shape` — which is empty exactly when both methods start with `self._raise_if_not_observable()` -/
+theorem rejected_iff_unless_unchecked (m : Metric V) (hwf : m.single.isSome = m.decl.labelnames.isEmpty) (addr : Addr)
     (act : Action V) (hF7 : ¬ F7Shape m.decl addr act) :
     (stepCall m addr act).2 = .raised .valueError ↔ RejectedCall m.decl addr act := by
   cases addr with
@@ -167,7 +171,7 @@ theorem rejected_iff_partial (m : Metric V) (hwf : m.single.isSome = m.decl.labe
       simp only [callMethod_valueError_iff]
       simp [hb]
 
-/-- every metric object of a reachable registry is well formed in the sense `rejected_iff_partial` needs -/
+/-- every metric object of a reachable registry is well formed in the sense `rejected_iff` needs -/
 theorem reachable_wf (ds : List (Decl V)) (ops : List (Op V)) :
     ∀ m ∈ (run (Reg.fresh ds) ops).1, m.single.isSome = m.decl.labelnames.isEmpty := by
   rw [state_is_replay_of_accepted]
@@ -191,37 +195,30 @@ repair of F7): then no shape is excluded -/
 theorem rejected_iff_of_repaired (h1 : counterResetChecksObservable = true) (h2 : infoChecksObservable = true)
     (m : Metric V) (hwf : m.single.isSome = m.decl.labelnames.isEmpty) (addr : Addr) (act : Action V) :
     (stepCall m addr act).2 = .raised .valueError ↔ RejectedCall m.decl addr act := by
-  apply rejected_iff_partial m hwf addr act
+  apply rejected_iff_unless_unchecked m hwf addr act
   cases addr with
   | labels a k => exact fun h => h
   | none =>
     intro ⟨_, hs⟩
     cases hk : m.decl.kind <;> cases act <;> simp [skipsObservableCheck, hk, h1, h2] at hs
 
-/-- **F7 in the model**: as long as `Counter.reset` does not start with `self._raise_if_not_observable()` (`hsrc`,
-true of the tree the finding was made on — see `Example.f7_status`), `Counter(…, labelnames).reset()` on the labelled
-parent raises AttributeError (and changes nothing) -/
-theorem f7_reset_on_labelled_parent (hsrc : counterResetChecksObservable = false) (m : Metric V)
-    (hk : m.decl.kind = .counter) (hl : m.decl.labelnames ≠ []) (hs : m.single = none) :
-    stepCall m .none .reset = (m, .raised .attributeError) := by
-  have hl' : m.decl.labelnames.isEmpty = false := by simpa using hl
-  have h2 := parentCall_attributeError m.decl (.reset : Action V) (by rw [hk]; simp [skipsObservableCheck, hsrc])
-  have h1 := callMethod_none m.decl false (.reset : Action V)
-  simp only [stepCall, hs, hl']
-  rw [Prod.ext_iff]
-  exact ⟨by cases m; simp_all, h2⟩
+/-- **Rejected calls raise ValueError, and only they do** (full statement): negative counter increment, wrong label
+count or names, unknown enum state, updating a labelled parent without labels — by ANY update method, `reset()` and
+`info()` included (the repair of F7; the two `decide`s fail on a tree without it). -/
+theorem rejected_iff (m : Metric V) (hwf : m.single.isSome = m.decl.labelnames.isEmpty) (addr : Addr) (act : Action V) :
+    (stepCall m addr act).2 = .raised .valueError ↔ RejectedCall m.decl addr act :=
+  rejected_iff_of_repaired (by decide) (by decide) m hwf addr act
 
-/-- **F7 in the model**: likewise `Info(…, labelnames).info(val)` on the labelled parent raises AttributeError,
-whatever `val` -/
-theorem f7_info_on_labelled_parent (hsrc : infoChecksObservable = false) (m : Metric V) (hk : m.decl.kind = .info)
-    (hl : m.decl.labelnames ≠ []) (hs : m.single = none) (val : List (Str × Option Str)) :
-    stepCall m .none (.info val) = (m, .raised .attributeError) := by
-  have hl' : m.decl.labelnames.isEmpty = false := by simpa using hl
-  have h2 := parentCall_attributeError m.decl (.info val : Action V) (by rw [hk]; simp [skipsObservableCheck, hsrc])
-  have h1 := callMethod_none m.decl false (.info val : Action V)
-  simp only [stepCall, hs, hl']
-  rw [Prod.ext_iff]
-  exact ⟨by cases m; simp_all, h2⟩
+/-- **F7 regression**: every update method of the class — `Counter.reset()` and `Info.info(…)` included — called on a
+labelled parent without labels raises ValueError and changes nothing -/
+theorem labelled_parent_update_rejected (m : Metric V) (hwf : m.single.isSome = m.decl.labelnames.isEmpty)
+    (hl : m.decl.labelnames ≠ []) (act : Action V) (hm : isMethod m.decl.kind act = true) :
+    stepCall m .none act = (m, .raised .valueError) := by
+  have h2 := (rejected_iff m hwf .none act).mpr (Or.inl ⟨hl, hm⟩)
+  have h1 : (stepCall m .none act).1 = m := by
+    simp only [stepCall] at h2 ⊢
+    rw [callMethod_frame _ _ _ _ _ h2]
+  exact Prod.ext h1 h2
 
 /-- `remove` raises ValueError exactly for a metric declared without labels or a wrong number of values, and nothing
 else -/
@@ -498,22 +495,14 @@ rejected, the keyword call reached the same child) -/
 example :
     (run (Reg.fresh decls) (ops.take 1 ++ ops.drop 2)).2 = [.ok, .raised .valueError, .ok, .ok, .ok] := by decide
 
-/-- **F7, kernel-checked on the concrete registry**: with the source as it is (`…ChecksObservable = false`) the model
-raises AttributeError for `reset()` on the labelled counter and for `info({})` on a labelled Info; were the methods
-repaired, it would raise ValueError.  (Stated for both values so that the repair does not break the build.) -/
-theorem f7_status :
-    (counterResetChecksObservable = false →
-        (step (Reg.fresh decls) (.call 0 .none .reset)).2 = .raised .attributeError) ∧
-      (counterResetChecksObservable = true →
-        (step (Reg.fresh decls) (.call 0 .none .reset)).2 = .raised .valueError) ∧
-      (infoChecksObservable = false →
-        (step (Reg.fresh [(⟨['i'], .info, [['l']]⟩ : Decl Int)]) (.call 0 .none (.info []))).2 = .raised .attributeError) ∧
-      (infoChecksObservable = true →
-        (step (Reg.fresh [(⟨['i'], .info, [['l']]⟩ : Decl Int)]) (.call 0 .none (.info []))).2 = .raised .valueError) := by
+/-- **F7 regression, kernel-checked on concrete registries**: `reset()` on the labelled counter and `info({})` on a
+labelled Info raise ValueError (AttributeError before the repair) -/
+theorem f7_regression :
+    (step (Reg.fresh decls) (.call 0 .none .reset)).2 = .raised .valueError ∧
+      (step (Reg.fresh [(⟨['i'], .info, [['l']]⟩ : Decl Int)]) (.call 0 .none (.info []))).2 = .raised .valueError := by
   decide
-example : (step (Reg.fresh decls) (.call 0 .none (.inc 1))).2 = .raised .valueError := by decide
 
-/-- `rejected_is_frame` / `rejected_iff_partial`: a raising step on a non-trivial registry -/
+/-- `rejected_is_frame` / `rejected_iff`: a raising step on a non-trivial registry -/
 example : ∃ e, (step (run (Reg.fresh decls) (ops.take 1)).1 (.call 0 (.labels [.str ['a'], .bool true] []) (.inc (-1)))).2
     = .raised e := ⟨.valueError, by decide⟩
 
